@@ -4,6 +4,8 @@ import KrroodVerif.Model.EqlTrace
 import KrroodVerif.Model.EqlTraceQ
 import KrroodVerif.Model.EqlTraceN
 import KrroodVerif.Model.Quantifier
+import KrroodVerif.Model.EqlSub
+import KrroodVerif.Model.EqlTraceSub
 import KrroodVerif.Drive.EqlParse
 namespace KrroodVerif.Drive.C10
 open KrroodVerif KrroodVerif.Eql KrroodVerif.Drive.EqlParse
@@ -39,6 +41,68 @@ def runFlat (items : List Sexp) : Option String := do
   let out := s!"n={total} " ++ " ".intercalate ((List.range (total + 2)).map line)
   pure s!"model={out}\tspec={out}\ttrig="
 
+/-! ### sub-query operands (`Model/EqlTraceSub.lean`): `(qs (thes b…) (sel …) (cond <xs>) (objs …) (doms …))` -/
+
+def parseOperand : Sexp → Option Operand
+  | .list [.atom "subq", i, y] => do pure (.sub (← i.asNat?) (← y.asNat?) none)
+  | .list [.atom "subq", i, y, c] => do pure (.sub (← i.asNat?) (← y.asNat?) (some (← parseSExpr c)))
+  | t => (parseTerm t).map Operand.plain
+
+partial def parseXS (s : Sexp) : Option XSExpr :=
+  match s with
+  | .list [.atom "cmpx", op, l, r] => do pure (.cmpX (← parseOp op) (← parseOperand l) (← parseOperand r))
+  | .list [.atom "and", l, r] => do pure (.and (← parseXS l) (← parseXS r))
+  | .list [.atom "or", l, r] => do pure (.or (← parseXS l) (← parseXS r))
+  | .list [.atom "not", e] => do pure (.not (← parseXS e))
+  | _ => (parseSExpr s).map XSExpr.base
+
+/-- the observation of one event list: `n=<rows> k0:[…] … h0:[…] … end:[…]` (same format as in `run` below) -/
+def obsOf (vars : List VarId) (evs : List Ev) : String :=
+  let n := (rowsOf evs).length
+  let line := fun (k : Nat) => s!"k{k}:" ++ showList (vars.map fun v => toString (pulled v (uptoRow k evs)))
+  let hline := fun (k : Nat) =>
+    s!"h{k}:" ++ showList (vars.map fun v => toString (max (pulled v (uptoRow k evs)) (pulled v (uptoRow 1 evs))))
+  let body := " ".intercalate ((List.range (n + 1)).map line ++ (List.range (n + 1)).map hline)
+  let full := "end:" ++ showList (vars.map fun v => toString (pulled v evs))
+  if hasErr evs then "exc" else s!"n={n} {body} {full}"
+
+/-- a query with nested `an(...)`/`the(...)` operands; `thes`: one flag per sub-query, left to right (1 = `the`) -/
+def runSub (items : List Sexp) : Option String := do
+  let flags ← (← Sexp.field? items "thes").mapM Sexp.asNat?
+  let sel ← (← Sexp.field? items "sel").mapM parseTerm
+  let c ← match Sexp.field? items "cond" with | some [e] => parseXS e | _ => none
+  let objs ← (← Sexp.field? items "objs").mapM parseObj
+  let doms ← (← Sexp.field? items "doms").mapM parseDom
+  let w : World := { objs := objs, doms := doms }
+  let thes := ((c.subIds.zip flags).filter (·.2 == 1)).map (·.1)
+  let evs := traceQueryX w thes sel (buildX c)
+  let vars := sortNat (w.doms.map (·.1))
+  let out := obsOf vars evs
+  -- `lrows=`: the rows of the list model (`evalQueryX`, Model/EqlSub.lean) — equal to the trace's rows by `C10S_rows`
+  let lrows := match evalQueryX w sel (buildX c) with
+    | .ok rs => " ".intercalate (rs.map showRow)
+    | .error _ => "exc"
+  pure s!"model={out}\tspec={out}\ttrig=\trows={" ".intercalate ((rowsOf evs).map showRow)}\tlrows={lrows}\tfrag=S"
+
+/-- `(two <k-independent> (q …A) (q …B))`: HISTORY "query A is consumed up to its k-th result and abandoned, then a
+DIFFERENT query B over the SAME variable objects is evaluated": the domain values A pulled are cached in the shared
+variables, B replays them and pulls on demand beyond, so after one result of B the generators have given out the
+maximum of what A's k results and B's first result need (`t{k}`), after exhausting B the maximum of A's k results and
+all of B (`u{k}`) -/
+def runTwo (a b : Sexp) : Option String := do
+  let (w, qa) ← parseCase a
+  let (_, qb) ← parseCase b
+  let ea := traceQueryN w qa.toQuery
+  let eb := traceQueryN w qb.toQuery
+  let vars := sortNat (w.doms.map (·.1))
+  let n := (rowsOf ea).length
+  let vec := fun (xs : List Ev) (ys : List Ev) => showList (vars.map fun v => toString (max (pulled v xs) (pulled v ys)))
+  let tl := (List.range (n + 1)).map fun k => s!"t{k}:" ++ vec (uptoRow k ea) (uptoRow 1 eb)
+  let ul := (List.range (n + 1)).map fun k => s!"u{k}:" ++ vec (uptoRow k ea) eb
+  let out := if hasErr ea || hasErr eb then "exc"
+    else s!"n={n} m={(rowsOf eb).length} " ++ " ".intercalate (tl ++ ul)
+  pure s!"model={out}\tspec={out}\ttrig=\tfrag=H2"
+
 /-- `n=<rows> k0:[p_v1,p_v2,…] k1:[…] …` — per number of consumed results, the number of elements pulled from each
 variable's domain (variables in increasing id order), as the demand-driven trace model predicts -/
 def run (s : Sexp) : String :=
@@ -46,6 +110,8 @@ def run (s : Sexp) : String :=
   -- building is a pure function of the description in every model: no event is performed
   if let .list [.atom "silent", _] := s then "model=silent\tspec=silent\ttrig=" else
   if let .list (.atom "flat" :: items) := s then (runFlat items).getD "error=bad-case" else
+  if let .list (.atom "qs" :: items) := s then (runSub items).getD "error=bad-case" else
+  if let .list [.atom "two", a, b] := s then (runTwo a b).getD "error=bad-case" else
   -- `(qpulls <kind> v n)`: a result-count constraint over a lazily produced n-element domain, fully consumed: the
   -- evaluation stops taking elements with the one that reveals an exceeded upper bound (`Quant.consumed`)
   if let .list [.atom "qpulls", .atom kind, v, n] := s then
